@@ -105,8 +105,9 @@ impl<W: WorldDriver> BWorld<W> {
         let mut conflict_at = None;
         // writes of a nesting that ends in a panic still happened before the panic
         for (i, acc) in nest.iter().enumerate() {
-            if acc.kind == BKind::CloneWorld {
-                if cells.values().any(|c| c.writer) {
+            if acc.kind.is_clone() {
+                let world_level = acc.kind.clone_is_world_level();
+                if cells.iter().any(|((a, _), c)| c.writer && (world_level || *a == acc.arch)) {
                     conflict_at = Some(i);
                     break;
                 }
